@@ -97,6 +97,9 @@ func (r *Run) Thorough() bool { return r.Tier == "thorough" }
 
 // Fail registers a failing case. Safe for concurrent use.
 func (r *Run) Fail(f Failure) {
+	// keys are compared with what known_findings.json holds: they must survive a JSON round trip
+	f.Kind = strings.ToValidUTF8(f.Kind, "\uFFFD")
+	f.Witness = strings.ToValidUTF8(f.Witness, "\uFFFD")
 	r.mu.Lock()
 	defer r.mu.Unlock()
 	k := f.Key()
